@@ -44,7 +44,8 @@ const char *EntryName(int e) {
                                  "DecodeBufferToGeometry(Mesh)",
                                  "DecodeBufferToGeometry(PointCloud)",
                                  "Decode*FromBuffer+SkipAttributeTransform",
-                                 "KeyframeAnimationDecoder::Decode"};
+                                 "KeyframeAnimationDecoder::Decode",
+                                 "DecodeBufferToGeometry x2 (same object)"};
   return (e >= 0 && e < E_NUM) ? n[e] : "?";
 }
 
@@ -169,6 +170,32 @@ __attribute__((noinline)) void DoCall(int entry, const char *data, size_t len,
       set_status(dec.Decode(opts, &buffer, anim));
       break;
     }
+    case E_TWICE: {
+      // The output geometry is not required to be empty: a second decode into
+      // the same object appends. The first status is ignored (it may fail
+      // half-way and leave the object partially filled).
+      draco::DecoderBuffer probe;
+      probe.Init(data, len);
+      auto ty = draco::Decoder::GetEncodedGeometryType(&probe);
+      const bool mesh = ty.ok() && ty.value() == draco::TRIANGULAR_MESH;
+      if (mesh) {
+        g_mesh.reset(new draco::Mesh());
+      } else {
+        g_pc.reset(new draco::PointCloud());
+      }
+      for (int k = 0; k < 2; ++k) {
+        draco::DecoderBuffer b2;
+        b2.Init(data, len);
+        draco::Decoder dec;
+        if (mesh) {
+          set_status(dec.DecodeBufferToGeometry(&b2, g_mesh.get()));
+        } else {
+          set_status(dec.DecodeBufferToGeometry(&b2, g_pc.get()));
+        }
+        if (r->outcome == O_OK) r->remaining = b2.remaining_size();
+      }
+      return;
+    }
     case 101:
       r->digest = static_cast<uint64_t>(sim_canary_heap_overflow(16));
       break;
@@ -268,6 +295,14 @@ CallResult RunEntry(int entry, const std::vector<uint8_t> &bytes,
     AllocGetDeclared(r.declared);
     r.steps = g_steps;
     r.last_pc = StepsLastPc();
+    {
+      void *bt[24];
+      const int nb = StepsLastBacktrace(bt, 24);
+      r.n_alloc_pcs = 0;
+      for (int i = 0; i < nb && r.n_alloc_pcs < 12; ++i)
+        r.loop_pcs[r.n_alloc_pcs++] = reinterpret_cast<uintptr_t>(bt[i]);
+      r.n_loop_pcs = r.n_alloc_pcs;
+    }
     // The call was abandoned: its objects are leaked, free them wholesale.
     (void)g_mesh.release();
     (void)g_pc.release();
@@ -823,9 +858,9 @@ class Batch {
     const bool mesh_stream = len > 7 && s.bytes[7] == 1;
     const int main_entry = mesh_stream ? E_MESH : E_PC;
     p.entries = (1 << E_TYPE) | (1 << main_entry);
-    static const int kOthersMesh[5] = {E_PC, E_TO_MESH, E_TO_PC, E_SKIP, E_ANIM};
-    static const int kOthersPc[5] = {E_MESH, E_TO_MESH, E_TO_PC, E_SKIP, E_ANIM};
-    const int pick = static_cast<int>(r.Fork("entry").Below(5));
+    static const int kOthersMesh[6] = {E_PC, E_TO_MESH, E_TO_PC, E_SKIP, E_ANIM, E_TWICE};
+    static const int kOthersPc[6] = {E_MESH, E_TO_MESH, E_TO_PC, E_SKIP, E_ANIM, E_TWICE};
+    const int pick = static_cast<int>(r.Fork("entry").Below(6));
     p.entries |= 1 << (mesh_stream ? kOthersMesh[pick] : kOthersPc[pick]);
     p.skip_mask = static_cast<int>(r.Fork("skip").Below(31)) + 1;
     p.mirrored = r.Fork("mirror").Below(4) == 0;
@@ -1079,7 +1114,10 @@ class Executor {
         Json ex = Json::Object();
         ex["pc"] = static_cast<unsigned long long>(r.last_pc);
         ex["steps"] = static_cast<unsigned long long>(r.steps);
-        cand("C02", "nontermination", "pc:" + Hex64(r.last_pc),
+        std::string lsig = "loopbt";
+        for (int i = 0; i < r.n_loop_pcs; ++i) lsig += ":" + Hex64(r.loop_pcs[i]);
+        if (r.n_loop_pcs == 0) lsig = "pc:" + Hex64(r.last_pc);
+        cand("C02", "nontermination", lsig,
              "exact recurrence of the complete machine state", ex);
       }
       if (r.outcome == O_UNDECIDED && out_lines && st) {
